@@ -360,15 +360,19 @@ Definition run_c09 (wo : wopts) (ro : ropts) (e : env) (s : schema) (v : pyval) 
   | WErr => "E" | WUnspec => "U" | WFuel => "FUEL"
   end.
 
-(* C10: both validation modes, non-strict | strict, then what the default writer does with the datum *)
-Definition run_c10 (dt : bool) (e : env) (s : schema) (v : pyval) : string :=
-  let o1 := {| strict := false; strict_allow_default := false; disable_tuple := dt |} in
-  let o2 := {| strict := true; strict_allow_default := false; disable_tuple := dt |} in
-  run_validate2 o1 e s v ++ "|" ++ run_validate2 o2 e s v ++ "|" ++
-  match elab FUEL2 o1 e s v with
+(* C10: both validation modes, non-strict | strict, then what the default writer, the strict writer and the
+   strict_allow_default writer do with the datum *)
+Definition show_written (r : wres aval) : string :=
+  match r with
   | WOk a => "W:" ++ tohex (wire a) ++ (if floats_ok a then "" else ";FBAD")
   | WErr => "E" | WUnspec => "U" | WFuel => "FUEL"
   end.
+Definition run_c10 (dt : bool) (e : env) (s : schema) (v : pyval) : string :=
+  let o1 := {| strict := false; strict_allow_default := false; disable_tuple := dt |} in
+  let o2 := {| strict := true; strict_allow_default := false; disable_tuple := dt |} in
+  let o3 := {| strict := false; strict_allow_default := true; disable_tuple := dt |} in
+  run_validate2 o1 e s v ++ "|" ++ run_validate2 o2 e s v ++ "|" ++ show_written (elab FUEL2 o1 e s v)
+  ++ "|" ++ show_written (elab FUEL2 o2 e s v) ++ "|" ++ show_written (elab FUEL2 o3 e s v).
 
 (* option records as the harness writes them (same as model/Harness.v; repeated here so that the C09/C10 checks do
    not depend on that file) *)
